@@ -4,6 +4,7 @@ import (
 	"bytes"
 	"errors"
 	"slices"
+	"sync"
 
 	"github.com/NethermindEth/juno/db"
 	"github.com/NethermindEth/juno/db/dbutils"
@@ -24,23 +25,32 @@ var (
 type transaction struct {
 	client gen.KV_TxClient
 	logger log.StructuredLogger
+	// One request/response exchange at a time: the stream carries the replies in the order of
+	// the requests and nothing else ties a reply to its request, while the transaction and the
+	// iterators created from it may be used from different goroutines.
+	mu sync.Mutex
+}
+
+func (t *transaction) exchange(req *gen.Cursor) (*gen.Pair, error) {
+	t.mu.Lock()
+	defer t.mu.Unlock()
+
+	if err := t.client.Send(req); err != nil {
+		return nil, err
+	}
+	return t.client.Recv()
 }
 
 func (t *transaction) NewIterator(prefix []byte, withUpperBound bool) (db.Iterator, error) {
-	err := t.client.Send(&gen.Cursor{
+	pair, err := t.exchange(&gen.Cursor{
 		Op: gen.Op_OPEN,
 	})
 	if err != nil {
 		return nil, err
 	}
 
-	pair, err := t.client.Recv()
-	if err != nil {
-		return nil, err
-	}
-
 	it := &iterator{
-		client:     t.client,
+		tx:         t,
 		cursorID:   pair.CursorId,
 		logger:     t.logger,
 		lowerBound: slices.Clone(prefix),
@@ -72,15 +82,10 @@ func (t *transaction) DeleteRange(start, end []byte) error {
 }
 
 func (t *transaction) Get(key []byte, cb func(value []byte) error) error {
-	err := t.client.Send(&gen.Cursor{
+	pair, err := t.exchange(&gen.Cursor{
 		Op: gen.Op_GET,
 		K:  key,
 	})
-	if err != nil {
-		return err
-	}
-
-	pair, err := t.client.Recv()
 	if err != nil {
 		return err
 	}
